@@ -21,6 +21,10 @@ CHECKS = {
    text="TLA+ spec StreamsMap (incoming slot accounting and MAX_STREAMS credit, STREAM_LIMIT_ERROR / STREAM_STATE_ERROR rules, outgoing ordinals within the peer's limit, STREAMS_BLOCKED once per limit, FIFO service of OpenStreamSync waiters, accept exactly once in order) model-checked by TLC; TLC enumerates all stimulus sequences of length 3-5, seeded walks beyond, for both perspectives and stream types and three limit settings; executed on the real streamsMap with concurrent callers in a synctest bubble; every result, queued frame and wake-up validated by TLC, incl. 'no starved waiter at quiescence'.",
    note="Trusted: TLC, go1.26 synctest (quiescence detection), harness. Races (credit vs. new caller / vs. cancellation of the head waiter) are provoked without controlling the scheduler; at most one concurrent AcceptStream caller. 0-RTT reset maps not exercised yet.",
    technique="TLA+ model checking (TLC) + TLC-enumerated stimuli replayed into the real code + TLC trace validation"),
+ "C01": dict(engine="StreamXfer", design="5 C01",
+   text="TLA+ spec StreamXfer: API-level contract (bytes read are a prefix of bytes written, EOF only after all, datagrams intact and at most once, completion at quiescence) with a network refinement StreamXfer_Net (loss / duplication / reordering / retransmission) model-checked by TLC for safety and completion under fairness; TLC enumerates every schedule of <=1 (<=2) faults among the first datagrams of either direction (NetFaults) plus blackout / reordering / random-loss lattices; each schedule runs a scripted multi-stream transfer between a real client (plain or fingerprint spec, v1/v2) and the in-tree server over simnet in a synctest bubble; the recorded API trace is validated by TLC.",
+   note="Trusted: TLC, go1.26 synctest + testutils/simnet (virtual time), harness content check. Observation is at the two APIs only. Completion is required because the enumerated faults never keep the path dead for longer than the idle timeout.",
+   technique="TLA+ model checking (TLC, safety + liveness) + TLC-enumerated fault schedules replayed into real connections + TLC trace validation"),
 }
 NA = {}
 
